@@ -805,6 +805,20 @@ pub fn make(profile: &str, seed: u64, index: u64) -> (Params, Extras) {
         }
         "C02" => must_deliver(seed, index % 4 == 3),
         "C02bh" => never_recovers(seed, index),
+        "C09bh" => {
+            // the same permanent-blackhole scenarios, watched by the loss/PTO monitor: long
+            // chains of consecutive probe timeouts without any acknowledgement in between
+            let mut p = never_recovers(seed, index);
+            p.profile = "C09bh".into();
+            p.monitors = vec!["C09".into()];
+            p.knobs.remove("c02_mode");
+            // longer idle timeouts leave room for more consecutive expiries
+            p.server.idle_timeout_ms = 30_000;
+            for c in p.clients.iter_mut() {
+                c.cfg.idle_timeout_ms = 30_000;
+            }
+            p
+        }
         "smoke" => {
             let mut p = base("smoke", seed, &["C01", "C03", "C08", "C09", "C12"]);
             let mut r = Rng::new(seed);
@@ -939,6 +953,7 @@ pub fn nontrivial_features(profile: &str) -> &'static [&'static str] {
         "C12" => &["retransmission", "resegmented", "reset_sent", "close_sent"],
         "C02" => &["blocked_stream_credit", "blocked_conn_credit", "blocked_stream_count", "loss", "net_drop", "congestion_event"],
         "C02bh" => &["net_drop"],
+        "C09bh" => &["pto_probe"],
         "C06" => &["injection"],
         "C15" => &["key_updated"],
         "C14" => &["error_close", "tight_stream_limit", "tight_conn_limit", "tight_stream_count", "blocked_stream_count", "stream_completed"],
